@@ -285,9 +285,48 @@ func genSpec(rng *mrand.Rand, i int) ech.ConfigSpec {
 		}
 	}
 	nl := 1 + (i/256+i)%255
-	s.PublicName = genName(rng, nl, rng.IntN(2) == 0 && nl >= 3)
+	s.PublicName = genName(rng, nl, rng.IntN(4) != 0 && nl >= 3)
 	s.MaximumNameLength = uint8(rng.IntN(256)) // must be ignored: derived from the name
 	return s
+}
+
+// strictName: a public name every client accepts - at least two LDH labels of 1..63 bytes, 253 bytes at most.
+// The producers must encode such names; they may refuse any other (clients ignore configs with other names).
+func strictName(name []byte) bool {
+	if !validDNSName(string(name)) {
+		return false
+	}
+	for _, l := range strings.Split(string(name), ".") {
+		if len(l) > 63 {
+			return false
+		}
+	}
+	return true
+}
+
+// refEncode is the harness' own encoder of an ECHConfig (used where the package refuses to produce one).
+func refEncode(s ech.ConfigSpec) ech.Config {
+	var body []byte
+	body = append(body, s.ID, byte(s.KEM>>8), byte(s.KEM))
+	body = append(body, byte(len(s.PublicKey)>>8), byte(len(s.PublicKey)))
+	body = append(body, s.PublicKey...)
+	body = append(body, byte(4*len(s.CipherSuites)>>8), byte(4*len(s.CipherSuites)))
+	for _, cs := range s.CipherSuites {
+		body = append(body, byte(cs.KDF>>8), byte(cs.KDF), byte(cs.AEAD>>8), byte(cs.AEAD))
+	}
+	body = append(body, byte(min(len(s.PublicName)+16, 255)), byte(len(s.PublicName)))
+	body = append(body, s.PublicName...)
+	body = append(body, 0, 0)
+	out := []byte{byte(s.Version >> 8), byte(s.Version), byte(len(body) >> 8), byte(len(body))}
+	return ech.Config(append(out, body...))
+}
+
+// encodeAny: the package's encoding when it produces one, else the harness' (foreign configs for the parser).
+func encodeAny(s ech.ConfigSpec) ech.Config {
+	if b, err := s.Bytes(); err == nil {
+		return b
+	}
+	return refEncode(s)
 }
 
 func specJSON(s ech.ConfigSpec) map[string]any {
@@ -305,7 +344,7 @@ func TestCheck(t *testing.T) {
 		"live crypto/tls client<->server ECH handshakes for DNS-valid names. distinct = distinct (workload, id, name length, key length, #suites | mutation position) classes that reached the codec")
 	r.Assume("independent section-4 parser in the harness (explicit offset arithmetic, no code from /repo)",
 		"crypto/tls of the building toolchain as conforming client and server",
-		"public names outside crypto/tls' DNS-name predicate are exercised for the codec only (crypto/tls ignores such configs)")
+		"public names outside the plain multi-label LDH shape (single label, underscore, empty label, leading/trailing hyphen or dot, over 253 bytes, non-ASCII ...): the producers may refuse them, but a config they do produce must be usable by crypto/tls like any other")
 
 	ca, err := tlspeer.NewCA()
 	if err != nil {
@@ -320,10 +359,26 @@ func TestCheck(t *testing.T) {
 		c := specJSON(spec)
 		r.Guard("codec", i, "codec", c, func() {
 			enc, err := spec.Bytes()
+			if len(spec.PublicKey) == 0 || len(spec.CipherSuites) == 0 {
+				// HpkePublicKey<1..2^16-1> and cipher_suites<4..2^16-4>: there is no well-formed encoding
+				if err == nil {
+					r.Violate("codec", i, "codec:empty-vector-encoded", fmt.Sprintf("ConfigSpec.Bytes produced a config with a %d-byte public key and %d cipher suites", len(spec.PublicKey), len(spec.CipherSuites)), c)
+				} else {
+					r.Count("codec_refused_empty_key_or_suites", 1)
+				}
+				r.Eval(fmt.Sprintf("codec|empty|%d|%d", len(spec.PublicKey), len(spec.CipherSuites)))
+				return
+			}
+			if err != nil && !strictName(spec.PublicName) {
+				r.Count("codec_refused_name_no_client_would_accept", 1)
+				r.Eval(fmt.Sprintf("codec|refused|%d", len(spec.PublicName)))
+				return
+			}
 			if err != nil {
 				r.Violate("codec", i, "codec:bytes-error", fmt.Sprintf("ConfigSpec.Bytes failed for a %d-byte name: %v", len(spec.PublicName), err), c)
 				return
 			}
+			r.Count("codec_encoded", 1)
 			r.Eval(fmt.Sprintf("codec|%d|%d|%d|%d", spec.ID, len(spec.PublicName), len(spec.PublicKey), len(spec.CipherSuites)))
 			rc, err := refParseConfig(&rd{enc}, true)
 			strictOK := err == nil
@@ -388,6 +443,9 @@ func TestCheck(t *testing.T) {
 				s.PublicKey = []byte{1}
 			}
 			b, err := s.Bytes()
+			if err != nil && (!strictName(s.PublicName) || len(s.PublicKey) == 0 || len(s.CipherSuites) == 0) {
+				b, err = refEncode(s), nil // a foreign config: lists carry configs as opaque byte strings
+			}
 			if err != nil {
 				r.Violate("list", i, "codec:bytes-error", err.Error(), specJSON(s))
 				return
@@ -438,6 +496,11 @@ func TestCheck(t *testing.T) {
 		c := map[string]any{"id": id, "name": mon.Hex(name)}
 		r.Guard("newconfig", i, "newconfig", c, func() {
 			priv, cfg, err := ech.NewConfig(id, name)
+			if err != nil && !strictName(name) {
+				r.Count("newconfig_refused_name_no_client_would_accept", 1)
+				r.Eval(fmt.Sprintf("newconfig|refused|%d", nl))
+				return
+			}
 			if err != nil {
 				r.Violate("newconfig", i, "newconfig:error", err.Error(), c)
 				return
@@ -494,6 +557,15 @@ func TestCheck(t *testing.T) {
 			r.Inconclusive("generator produced an invalid DNS name %q (want len %d)", pub, nl)
 			return
 		}
+		// every fifth case: a name that is NOT a plain multi-label LDH name. The producers may refuse it; a config
+		// they do produce must work with crypto/tls like any other ("produced => accepted")
+		odd := i%5 == 4
+		if odd {
+			base := DNSName(rng, 3+rng.IntN(40))
+			pub = []string{"localhost", "under_score." + base, "-" + base, strings.Replace(base, ".", "-.", 1), base + ".", "." + base,
+				strings.Replace(base, ".", "..", 1), DNSName(rng, 254), DNSName(rng, 255), "sp ace." + base, strings.ToUpper(base), "192.0.2.1", "xn--bcher-kva." + base,
+				strings.Repeat("a", 64) + "." + base, "a", "é." + base}[(i/5)%16]
+		}
 		id := uint8(rng.IntN(256))
 		mode := i % 4 // 0: NewConfig, 1..3: ConfigSpec.Bytes with a single AEAD
 		c := map[string]any{"id": id, "public_name": pub, "mode": mode}
@@ -510,9 +582,17 @@ func TestCheck(t *testing.T) {
 						CipherSuites: []ech.CipherSuite{suiteIDs[mode-1]}, PublicName: []byte(pub)}.Bytes()
 				}
 			}
+			if err != nil && odd && !strictName([]byte(pub)) {
+				r.Count("odd_names_refused_by_the_producer", 1)
+				r.Eval(fmt.Sprintf("handshake|odd-refused|%d", (i/5)%16))
+				return
+			}
 			if err != nil {
 				r.Violate("handshake", i, "handshake:config-error", err.Error(), c)
 				return
+			}
+			if odd {
+				r.Count("odd_names_produced", 1)
 			}
 			// lists of 1..3 configs, target first (crypto/tls picks the first usable)
 			cfgs := []ech.Config{cfg}
@@ -528,6 +608,9 @@ func TestCheck(t *testing.T) {
 			c["list"] = mon.Hex(list)
 			inner := "inner.example"
 			srvCert := ca.MustLeaf(0, inner, "public.example")
+			if odd {
+				c["name_shape"] = (i / 5) % 16
+			}
 			srvConf := &tls.Config{
 				Certificates:             []tls.Certificate{srvCert},
 				MinVersion:               tls.VersionTLS13,
@@ -537,6 +620,10 @@ func TestCheck(t *testing.T) {
 			cs, ss, err := handshake(cliConf, srvConf)
 			r.Eval(fmt.Sprintf("handshake|%d|%d|%d", mode, nl, id))
 			r.Count("handshakes", 1)
+			if err != nil && odd {
+				r.Violate("handshake", i, "handshake:produced-config-unusable:odd-public-name", fmt.Sprintf("a config was produced for the public name %q but crypto/tls cannot use it: %v", pub, err), c)
+				return
+			}
 			if err != nil {
 				r.Violate("handshake", i, fmt.Sprintf("handshake:failed:mode%d", mode), fmt.Sprintf("crypto/tls handshake with the produced config failed: %v", err), c)
 				return
@@ -554,7 +641,7 @@ func TestCheck(t *testing.T) {
 			r.Sample(map[string]any{"workload": "handshake", "case": c})
 		}
 	})
-	r.Floor("handshakes_ech_accepted", int64(nHS)*9/10)
+	r.Floor("handshakes_ech_accepted", int64(nHS)*7/10)
 
 	// -- parser robustness: truncations, mutations, trailing bytes, random --
 	nRob := r.N(60, 6000)
@@ -572,8 +659,7 @@ func TestCheck(t *testing.T) {
 			if j == 0 && len(s.PublicName) > 40 {
 				s.PublicName = s.PublicName[:40]
 			}
-			b, _ := s.Bytes()
-			cfgs = append(cfgs, b)
+			cfgs = append(cfgs, encodeAny(s))
 		}
 		list, _ := ech.ConfigList(cfgs)
 		base, err := ech.ParseConfigList(list)
